@@ -928,33 +928,73 @@ class LoopRig:
 				inter.transpiler = stub
 				stub.plan = [item[1]]
 				return ['pass']
+			if item[0] == 'req':  # ('req', lines, exc|None): the request as a list of lines with a scripted transpile outcome
+				inter.transpiler = stub
+				stub.plan = [item[2]]
+				return list(item[1])
 			inter.transpiler = self.real_transpiler
+			if item[0] == 'lines':  # a request exactly as tty() hands it over: a list of lines, possibly EMPTY
+				return list(item[1])
 			return item[1].split('\n')
 
 		old = tr.tty
 		tr.tty = fake_tty  # type: ignore[assignment]
-		status = ''
 		try:
-			with contextlib.redirect_stdout(io.StringIO()), pl.budget(cpu_s=pl.CAP_S * max(1, len(script))):
-				inter.run()
-			status = 'quit'
-		except _Exhausted:
-			status = 'running'
-		except pl.WallCap as e:
-			status = 'timeout'
-			self.last_exc = e
-		except BaseException as e:  # noqa: BLE001
-			status = f'died {display(type(e))}'
-			self.last_exc = e
+			status = self._run(len(script))
 		finally:
 			tr.tty = old  # type: ignore[assignment]
 		return f'{status} {consumed[0]}'
+
+	def _run(self, n_budget: int) -> str:
+		self.last_exc = None
+		try:
+			with contextlib.redirect_stdout(io.StringIO()), pl.budget(cpu_s=pl.CAP_S * max(1, n_budget)):
+				self.inter.run()
+			return 'quit'
+		except _Exhausted:
+			return 'running'
+		except pl.WallCap as e:
+			self.last_exc = e
+			return 'timeout'
+		except BaseException as e:  # noqa: BLE001
+			self.last_exc = e
+			return f'died {display(type(e))}'
+
+	def run_keys(self, keys: list[str], transpiler: Any = None, strip: bool = True) -> str:
+		"""The real tty() too: only bin/io.readline (the bash helper that reads ONE line from the terminal) is scripted; `keys` is what the
+		user types line by line ('' = the bare Enter that submits a request) → '<running|quit|died X> <requests started> <keys consumed>'"""
+		import rogw.tranp.bin.io as tio
+		tr, inter = self.tr, self.inter
+		feed = list(keys)
+		used = [0, 0]
+
+		def fake_readline(prompt: str = '') -> str:
+			if not feed:
+				raise _Exhausted()
+			used[1] += 1
+			k = feed.pop(0)
+			return k.rstrip() if strip else k  # readline() strips what the helper printed (io.py:22)
+
+		real_tty = tio.tty
+
+		def counting_tty(prompt: str = '') -> list[str]:
+			used[0] += 1
+			return real_tty(prompt)
+
+		inter.transpiler = transpiler or self.real_transpiler
+		old_tty, old_rl = tr.tty, tio.readline
+		tr.tty, tio.readline = counting_tty, fake_readline  # type: ignore[assignment]
+		try:
+			status = self._run(len(keys))
+		finally:
+			tr.tty, tio.readline = old_tty, old_rl  # type: ignore[assignment]
+		return f'{status} {used[0]} {used[1]}'
 
 
 def stream_loop(ctx: Ctx) -> Stream:
 	rng = ctx.sub_rng('loop')
 	rig = LoopRig(ctx)
-	run_script = rig.run_script
+	run_script, run_keys = rig.run_script, rig.run_keys
 	classes = exception_classes()
 	Errors = _errors()
 
@@ -1036,6 +1076,100 @@ def stream_loop(ctx: Ctx) -> Stream:
 				toks = ['ok', 'ok', 'ok']
 				toks[('unload', 'load', 'transpile').index(stage)] = exc_spec(exc)
 				cases.append(({'kind': f'turn-{stage}'}, ['\t'.join(['turn', *toks, render_of(exc)])], [real_status]))
+		# the request boundary: what tty() hands over is a LIST of lines (possibly empty); the quit test of the model is generated from the source
+		sm.on_unload = sm.on_load = None
+		words = ['exit', 'exit', '', 'a = 1', 'exit ', ' exit', 'Exit', 'x', 'exit\u3000', '終了']
+
+		def lines_tok(ls: list[str]) -> str:
+			return ','.join(common.hx(x) for x in ls) if ls else '~'
+
+		def req_item(ls: list[str], exc: BaseException | None) -> tuple[tuple[str, Any, Any], str]:
+			return ('req', ls, exc), 'req|' + lines_tok(ls) + '|' + stub_item(exc)[1].split('|', 1)[1]
+
+		boundary = [[], [''], ['exit'], ['exit', 'a = 1'], ['a = 1', 'exit'], ['exit '], [' exit'], ['Exit'], ['exit', 'exit'], ['', 'exit'], ['exit', ''], ['x'] * 400, ['exit'] + ['x'] * 400]
+		for ls in boundary:
+			for exc in (None, Errors.Syntax('s'), KeyError('k')):
+				it, tok = req_item(ls, exc)
+				ok_it, ok_tok = req_item(['b = 2'], None)
+				cases.append(({'kind': 'request-boundary'}, ['\t'.join(['loopreq', tok, ok_tok])], [run_script([it, ok_it])]))
+		for _ in range(ctx.scale(60, 400)):
+			script, toks = [], []
+			for _i in range(rng.randint(1, 4)):
+				if rng.random() < 0.1:
+					script.append(('interrupt',))
+					toks.append('interrupt')
+					continue
+				ls = [rng.choice(words) for _j in range(rng.choice([0, 0, 1, 1, 1, 2, 2, 3]))]
+				exc = make_exception(rng.choice(classes), rng.choice(['none', 'other']), None) if rng.random() < 0.4 else None
+				it, tok = req_item(ls, exc)
+				script.append(it)
+				toks.append(tok)
+			cases.append(({'kind': 'request-random'}, ['\t'.join(['loopreq', *toks])], [run_script(script)]))
+		# the real tty() on a scripted readline (raw results: the model has no rstrip — that is readline's)
+		import rogw.tranp.bin.io as tio
+
+		def real_tty(keys: list[str]) -> str:
+			feed = list(keys)
+
+			def fake_readline(prompt: str = '') -> str:
+				if not feed:
+					raise _Exhausted()
+				return feed.pop(0)
+
+			old_rl = tio.readline
+			tio.readline = fake_readline  # type: ignore[assignment]
+			try:
+				with contextlib.redirect_stdout(io.StringIO()):
+					got = tio.tty('p')
+				return f'req {lines_tok(got)} {len(feed)}' if isinstance(got, list) and all(isinstance(x, str) for x in got) else f'unexpected {type(got).__name__}'
+			except _Exhausted:
+				return 'waiting'
+			except BaseException as e:  # noqa: BLE001
+				return f'raise {display(type(e))}'
+			finally:
+				tio.readline = old_rl  # type: ignore[assignment]
+
+		for keys in ([], [''], ['exit'], ['a', ''], ['a', 'exit', 'b', ''], ['', ''], ['a'], ['exit ', ''], [' ', ''], ['a', 'b', 'c', '', 'd'], ['x'] * 300 + [''], ['a', 'exit']):
+			cases.append(({'kind': 'tty-boundary'}, ['\t'.join(['tty', *[common.hx(k) for k in keys]])], [real_tty(keys)]))
+		for _ in range(ctx.scale(60, 400)):
+			keys = [rng.choice(words) for _j in range(rng.randint(0, 6))]
+			cases.append(({'kind': 'tty-random'}, ['\t'.join(['tty', *[common.hx(k) for k in keys]])], [real_tty(keys)]))
+		# whole keyboard sessions: real tty() + real Interactive.run, the transpile outcome scripted per request text
+		class ByText:
+			def __init__(self) -> None:
+				self.table: dict[str, BaseException | None] = {}
+
+			def transpile(self, entrypoint: Any) -> str:
+				exc = self.table.get(rig.inter.source_provider.source_code)
+				if exc is not None:
+					raise exc
+				return 'ok'
+
+		by_text = ByText()
+		for n_case in range(ctx.scale(40, 300)):
+			keys = [rng.choice(words + ['', '']) for _j in range(rng.randint(0, 9))]
+			if n_case == 0:
+				keys = ['', 'a = 1', '', '', 'x', 'exit', 'b']
+			# the requests an independent reading of the transcript finds (blank submits, the quit line quits); each gets a scripted outcome
+			reqs, cur = [], []
+			for k in keys:
+				if k == '':
+					reqs.append(cur)
+					cur = []
+				elif k == 'exit':
+					break
+				else:
+					cur.append(k)
+			by_text.table = {}
+			entries = []
+			for r in reqs:
+				text = '\n'.join(r)
+				if text not in by_text.table:
+					exc = make_exception(rng.choice(classes), rng.choice(['none', 'other']), None) if rng.random() < 0.35 else None
+					by_text.table[text] = exc
+					entries.append(lines_tok(r) + '|' + stub_item(exc)[1].split('|', 1)[1])
+			real = run_keys(keys, transpiler=by_text, strip=False).rsplit(' ', 1)[0]
+			cases.append(({'kind': 'keys-session'}, ['\t'.join(['keys', str(len(entries)), *entries, *[common.hx(k) for k in keys]])], [real]))
 	finally:
 		sm.on_unload = sm.on_load = None
 		rig.inter.modules = real_modules
@@ -1077,7 +1211,7 @@ def stream_loop(ctx: Ctx) -> Stream:
 	probe.close()
 	st = common.correspond('errors-loop', cases, 'errors', classify=lambda d: d['kind'])
 	st.note = ('the real Interactive.run driven by a scripted tty (bin/transpile.tty patched in the harness process, no repo change): every exception class raised '
-		'by a stub transpiler, unprintable error arguments (render failure), KeyboardInterrupt at the prompt, and real sources through the real pipeline '
+		'by a stub transpiler, unprintable error arguments (render failure), KeyboardInterrupt at the prompt, requests as LISTS of lines incl. the empty list and lists around the quit command (`loopreq`, generated quit test), the real tty() on a scripted readline (`tty`), whole keyboard sessions through real tty() + real Interactive.run (`keys`), and real sources through the real pipeline '
 		'(valid, Errors.*, unparsable in-memory → raw lark exception, missing import); status + number of inputs consumed vs model')
 	return st
 
@@ -1966,14 +2100,46 @@ HISTORY_POOL_EXTRA = ['x = y', 'a = = 1', 'def f(:', 'a = $', 'if a:\n        x 
 	'class A([int]):\n\tpass', 'def f(self) -> None:\n\tpass', 'from typing import Generic\nclass T(Generic[T]):\n\tdef g(self) -> T: ...', 'b = 2', 'pass']
 
 
+def _requests_of(text: str) -> list[str]:
+	"""the request tty() hands over when `text` is typed: a blank line ends a request at the real prompt, so a request holds none — and
+	typing nothing at all gives the EMPTY request []"""
+	return [ln for ln in text.split('\n') if ln.strip()]
+
+
+def _expected_session(requests: list[list[str]]) -> str:
+	"""the prompt's contract ("Type `exit` to quit"): the request ['exit'] ends the session, every other request is served"""
+	for i, r in enumerate(requests):
+		if r == ['exit']:
+			return f'quit {i + 1}'
+	return f'running {len(requests)}'
+
+
+def _expected_keys(keys: list[str]) -> str:
+	"""own reading of bin/io.py's docstring for a keyboard transcript (one entry per Enter): a blank line submits the request typed so far,
+	the line `exit` quits → '<status> <requests started> <keys consumed>'"""
+	started = 1
+	for i, k in enumerate(keys):
+		k = k.rstrip()
+		if k == 'exit':
+			return f'quit {started} {i + 1}'
+		if k == '':
+			started += 1
+	return f'running {started} {len(keys)}'
+
+
 def search_loop_histories(ctx: Ctx) -> SearchResult:
 	"""Every session of the real Interactive.run must consume all of its inputs: each input ends ok or in an Errors.Error that is
-	printed, whatever was submitted before (modules of earlier inputs stay registered and are unloaded by the next one)."""
+	printed, whatever was submitted before (modules of earlier inputs stay registered and are unloaded by the next one). A session is
+	a list of requests (lists of lines, the EMPTY request included) handed over by a scripted tty, or a keyboard transcript read by the
+	real tty() through a scripted readline."""
 	res = SearchResult('sessions of the real Interactive.run (real pipeline, scripted tty): every history of inputs is consumed completely')
 	rng = ctx.sub_rng('histories')
 	selfs = [s.replace('__SELF__', '__main__').rstrip('\n') for s in gen.SELF_IMPORT_PROGRAMS]
 	pool = [s.rstrip('\n') for s in gen.VALID_PROGRAMS[:8]] + HISTORY_POOL_EXTRA + [t.rstrip('\n') for t in gen.ILL_TYPED_TEMPLATES if t.strip()][:60]
 	histories: list[list[str]] = []
+	# boundary requests first: nothing typed at all (before, between and after other requests, after a failed one, repeatedly)
+	for h in (['', 'b = 2'], ['a: int = 1', '', ''], ['def f(:', '', 'x = y', ''], ['   ', '\t', 'b = 2']):
+		histories.append(list(h))
 	for s in selfs:  # every self-import followed by something, and twice in a row
 		histories.append([s, 'b = 2'])
 		histories.append([s, s, pool[0]])
@@ -1985,44 +2151,78 @@ def search_loop_histories(ctx: Ctx) -> SearchResult:
 		h = [rng.choice(selfs) if rng.random() < 0.25 else rng.choice(pool) for _ in range(n)]
 		if rng.random() < 0.3:
 			k = rng.randrange(n)
-			h[k] = ''.join(gen.mutate_tokens(rng, gen.tokens_of(h[k]))).strip('\n') or 'pass'
+			h[k] = ''.join(gen.mutate_tokens(rng, gen.tokens_of(h[k]))).strip('\n')
+		if rng.random() < 0.2:
+			h[rng.randrange(n)] = rng.choice(['', '', ' ', '\n\n'])
 		histories.append(h)
+	# keyboard transcripts for the real tty(): requests separated by the blank line, plus what a keyboard can do to the separators
+	transcripts: list[list[str]] = [['', 'b = 2', ''], ['', '', ''], ['a: int = 1', '', '', 'x = y', ''], ['b = 2', '', 'a = 1', 'exit', 'c = 3', ''], ['exit'],
+		['x = y', '', ' exit', '', 'exit ', 'b = 2', ''], ['def f() -> None:', '\tpass', '  ', 'pass', '', '']]
+	for _ in range(ctx.scale(6, 80)):
+		keys: list[str] = []
+		for _i in range(rng.randint(1, 4)):
+			r = rng.random()
+			keys += [] if r < 0.25 else _requests_of(rng.choice(pool[:30])) if r < 0.9 else ['b = 2', 'exit', 'c = 3']
+			keys += rng.choice([[''], [''], ['', ''], ['  '], ['\t', '']])
+		transcripts.append(keys)
 	rig = LoopRig(ctx)
 	hist: Counter[str] = Counter()
 	seen_keys: set[str] = set()
 	_dl_sessions = _deadline(ctx, 'sessions', ctx.scale(60, 600))
+
+	def report(kind: str, payload: Any, out: str, expected: str, died_at: int, rerun: Any) -> None:
+		e = rig.last_exc
+		key = 'loop:' + (pl.escape_key(e, 'in-memory') if e is not None else f'{kind}:{out.split(" ")[0]}-instead-of-{expected.split(" ")[0]}')
+		if key in seen_keys:
+			return
+		seen_keys.add(key)
+		# shortest suffix of the consumed part that still ends a fresh session the same way
+		consumed = payload[:died_at]
+		minimal = consumed
+		if e is not None:
+			for start in range(len(consumed) - 1, -1, -1):
+				probe = LoopRig(ctx)
+				o2 = rerun(probe, consumed[start:])
+				if o2.startswith('died') and probe.last_exc is not None and 'loop:' + pl.escape_key(probe.last_exc, 'in-memory') == key:
+					minimal = consumed[start:]
+					break
+		res.findings.append(Finding(key=key, what=f'Interactive.run ended with {out!r} (expected {expected!r}) on the {kind} session {minimal!r}',
+			replay={'kind': 'session', kind: minimal, 'status': out, 'expected': expected, 'tranp_frames': pl.tranp_frames(e)[-6:] if e is not None else []}))
+		ctx.notes.append(f'finding key={key} | {kind} session {minimal!r} → {out} (expected {expected})')
+
 	for h in histories:
 		if _dl_sessions.over():
 			continue
 		res.cases += 1
-		# blank lines end an input at the real prompt: a session input never contains one
-		h = ['\n'.join(ln for ln in x.split('\n') if ln.strip()) or 'pass' for x in h]
-		out = rig.run_script([('src', x) for x in h])
+		reqs = [_requests_of(x) for x in h]
+		expected = _expected_session(reqs)
+		out = rig.run_script([('lines', r) for r in reqs])
 		hist[out.split(' ')[0]] += 1
-		if out == f'running {len(h)}':
+		hist['with-empty-request'] += any(not r for r in reqs)
+		if out == expected:
+			if out.startswith('quit'):
+				rig = LoopRig(ctx)
 			continue
-		e = rig.last_exc
-		key = 'loop:' + (pl.escape_key(e, 'in-memory') if e is not None else out)
-		died_at = int(out.rsplit(' ', 1)[1])
+		report('requests', reqs, out, expected, int(out.rsplit(' ', 1)[1]), lambda probe, part: probe.run_script([('lines', r) for r in part]))
 		rig = LoopRig(ctx)  # the session is over; start a new one
-		if key in seen_keys:
+	for keys in transcripts:
+		if _dl_sessions.over():
 			continue
-		seen_keys.add(key)
-		# shortest suffix of the consumed inputs that still ends a fresh session the same way
-		consumed = h[:died_at]
-		minimal = consumed
-		for start in range(len(consumed) - 1, -1, -1):
-			probe = LoopRig(ctx)
-			o2 = probe.run_script([('src', x) for x in consumed[start:]])
-			if o2.startswith('died') and probe.last_exc is not None and 'loop:' + pl.escape_key(probe.last_exc, 'in-memory') == key:
-				minimal = consumed[start:]
-				break
-		res.findings.append(Finding(key=key, what=f'Interactive.run ended with {out.split(" ")[1]} at input {died_at} of the session {minimal!r}',
-			replay={'kind': 'session', 'session': minimal, 'status': out, 'tranp_frames': pl.tranp_frames(e)[-6:] if e is not None else []}))
-		ctx.notes.append(f'finding key={key} | session {minimal!r} → {out}')
-	res.distinct = len({tuple(h) for h in histories})
+		res.cases += 1
+		expected = _expected_keys(keys)
+		out = rig.run_keys(keys)
+		hist['keys/' + out.split(' ')[0]] += 1
+		if out == expected:
+			if out.startswith('quit'):
+				rig = LoopRig(ctx)
+			continue
+		report('keys', keys, out, expected, int(out.rsplit(' ', 1)[1]), lambda probe, part: probe.run_keys(part))
+		rig = LoopRig(ctx)
+	res.distinct = len({tuple(h) for h in histories}) + len({tuple(k) for k in transcripts})
 	res.histogram = dict(hist)
-	res.note = f'{len(histories)} sessions of 2..6 inputs: valid programs, ill-typed templates, unparsable texts, programs importing from their own module (one-module import cycle), token mutations'
+	res.note = (f'{len(histories)} sessions of 2..6 requests handed over by a scripted tty: valid programs, ill-typed templates, unparsable texts, programs importing from their '
+		f'own module (one-module import cycle), token mutations, EMPTY requests; {len(transcripts)} keyboard transcripts read by the real tty() (scripted readline): blank and '
+		'whitespace-only lines, repeated Enter, `exit` inside a request')
 	return res
 
 
@@ -2119,6 +2319,14 @@ STATEMENTS = {
 	'ctorOk_named / proc_named': 'the constructor hypothesis of proc holds for every named class; proc without it for handlers raising named classes',
 	'loop_handles_all_errors': 'every member of the generated Errors hierarchy with every argument shape is printed and the loop continues',
 	'turn_survives': 'a turn (unload ok, load and transpile ok or in the hierarchy) returns to the prompt',
+	'quit_test_total': 'the quit test of Interactive.run (generated from the source as a ReqTest term) raises for NO request — the empty one included — and is true exactly for the quit command tty() returns',
+	'request_step': 'one pass of the loop for a request given as a list of lines = the abstract step: quit on the quit command, otherwise the outcome decides (so loop / loop_history / turn_survives cover every request)',
+	'request_survives': 'every request other than the quit command with an outcome in {ok} ∪ Errors.Error returns to the prompt',
+	'quit_test_unguarded_counterexample': 'NEGATIVE: `lines[0] == quit line` without the length guard raises IndexError on the empty request outside the inner try and ends the session',
+	'tty_request_shape': 'for every keyboard transcript tty() hands over a request without empty lines, containing the quit line only as the whole quit command, and consumes at least one key',
+	'tty_quit_typed': 'the keys left by tty() are keys of the transcript; the quit command is handed over only when the quit line was typed',
+	'session_survives': 'for EVERY keyboard transcript and every serving of requests with outcomes in {ok} ∪ Errors.Error (printable), Interactive.run ends at the prompt or through the quit command, and the latter only when the quit line was typed',
+	'session_fuel_irrelevant': 'the fuel of the session model is never the reason a session stops (any two fuels above the number of keys agree)',
 	'turn_unload_unprotected': 'the unload stage of rebuild_module runs outside Modules.load: a non-hierarchy Exception raised there ends the loop (hazard; not reachable by input on HEAD)',
 	'unload_clears_importers': 'for a duplicate-free registry Modules.unload(p) ends with p gone and no registered module importing p (no non-library module left when p is a library) — the law searched on the real code as graph-unload:stale-importer',
 	'writer_flush_outcome': 'Writer.flush ends ok, or with the exception of the directory creation, of a first attempt that is not retried, or of the second attempt',
@@ -2193,10 +2401,16 @@ def replay(ctx: Ctx, path: str) -> int:
 		return 0
 	if rec.get('kind') == 'failing-input' and rec['input'].get('kind') == 'session':
 		rig = LoopRig(ctx)
-		out = rig.run_script([('src', x) for x in rec['input']['session']])
-		print(f"replay: session {rec['input']['session']!r} -> {out}")
+		inp = rec['input']
+		if 'keys' in inp:
+			out, expected = rig.run_keys(inp['keys']), _expected_keys(inp['keys'])
+		elif 'requests' in inp:
+			out, expected = rig.run_script([('lines', r) for r in inp['requests']]), _expected_session(inp['requests'])
+		else:
+			out, expected = rig.run_script([('src', x) for x in inp['session']]), f"running {len(inp['session'])}"
+		print(f"replay: session {inp.get('keys') or inp.get('requests') or inp.get('session')!r} -> {out} (expected {expected})")
 		known = {k['key'] for k in common.load_known(PROP) if k.get('status') == 'known'}
-		bad = not out.startswith('running') and rec.get('key') not in known
+		bad = out != expected and rec.get('key') not in known
 		if bad:
 			print(f'VIOLATION property={PROP} replay={os.path.relpath(path, common.VERIF)}')
 		ctx.cleanup()
